@@ -1,8 +1,22 @@
-"""C06 — region operations are exact set algebra."""
+"""C06 — regions stay canonical; equal() is set equality."""
 from checks import regioncommon as rc
 
 REQUIRED = [
     "Pixman.Props.C06.init_not_mem",
+    "Pixman.Props.C06.canonListB_iff",
+    "Pixman.Props.C06.canon_init",
+    "Pixman.Props.C06.canon_clear",
+    "Pixman.Props.C06.canon_initWithExtents",
+    "Pixman.Props.C06.canon_initRect",
+    "Pixman.Props.C06.canon_copy",
+    "Pixman.Props.C06.canon_reset",
+    "Pixman.Props.C06.not_canon_brk",
+    "Pixman.Props.C06.spans_unique",
+    "Pixman.Props.C06.canonList_unique",
+    "Pixman.Props.C06.canon_rects_unique",
+    "Pixman.Props.C06.canon_extents_unique",
+    "Pixman.Props.C06.canon_unique",
+    "Pixman.Props.C06.equal_iff_mem",
 ]
 
 
